@@ -88,6 +88,110 @@ func c03(c *Ctx) {
 		r.Check("C03.accept-table", shortFn(rd.advance), "conformant-headers-pass-validator", rd.advance.Pos(), ok, why)
 	}
 
+	rd.parserRules("C03.len-classes", "C03.mask-thread", "C03.final-flag", "C03.inflate-iff-rsv1")
+	rd.readUnmask("C03.mask-thread")
+	rd.owners("C03.mask-thread", rd.readMaskPos, "(*Conn).advanceFrame", "(*messageReader).Read")
+	rd.owners("C03.mask-thread", rd.readMaskKey, "(*Conn).advanceFrame")
+	rd.owners("C03.remaining", rd.readRemaining, "(*Conn).setReadRemaining")
+	rd.owners("C03.final-flag", rd.readFinal, "(*Conn).advanceFrame", "newConn")
+	rd.remainingRule("C03.remaining")
+	rd.eofProvenance("C03.eom")
+	rd.skipLoop("C03.skip-loop")
+	rd.inflateWrap("C03.inflate-iff-rsv1")
+	if c.poolTypestate("C03.inflater-exclusive", "(*flateReadWrapper).Close", "(*flateReadWrapper).Read") < 1 {
+		r.Fail("C03.inflater-exclusive", "(*flateReadWrapper).Close", "pool-put-site", c.fn("(*flateReadWrapper).Close").Pos(), "no Put of the inflater found")
+	}
+	// newConn: readFinal = true
+	{
+		ok := false
+		for _, s := range c.P.FieldStoreSites(rd.readFinal) {
+			if shortFn(s.Parent()) == "newConn" {
+				if k, isC := s.Val.(*ssa.Const); isC && k.Value != nil && constant.BoolVal(k.Value) {
+					ok = true
+				}
+			}
+		}
+		r.Check("C03.final-flag", "newConn", "initial-readFinal-true", c.fn("newConn").Pos(), ok, "a new connection must start outside a message (readFinal = true)")
+	}
+}
+
+// b0Compatible: is header byte 0 = b0 compatible with the path's byte-0 literals in some state?
+func (rd *reader) b0Compatible(p *core.Path, P *core.Term, b0 int) bool {
+	isLeaf := rd.isHdrLeaf(P)
+	for st := 0; st < 8; st++ {
+		s := &hdrState{b0: b0, readFinal: st&1 != 0, isServer: st&2 != 0, hasDecomp: st&4 != 0}
+		lf := rd.hdrLeaf(P, s)
+		good := true
+		for _, l := range p.Lits {
+			if !core.Evaluable(l.T, isLeaf) || mentionsB1(l.T, P) {
+				continue
+			}
+			v, ok := p.X.Eval(l.T, lf)
+			if ok && constant.BoolVal(v) != l.Pos {
+				good = false
+				break
+			}
+		}
+		if good {
+			return true
+		}
+	}
+	return false
+}
+
+// owners: field f is stored (or copied into) only inside the named functions.
+func (rd *reader) owners(rule string, f *types.Var, allowed ...string) {
+	c, r := rd.c, rd.c.R
+	allow := map[string]bool{}
+	for _, a := range allowed {
+		allow[a] = true
+	}
+	writers := map[string]bool{}
+	for _, fn := range c.P.FuncList {
+		if fn.Synthetic != "" {
+			continue
+		}
+		direct := false
+		for _, b := range fn.Blocks {
+			for _, in := range b.Instrs {
+				switch v := in.(type) {
+				case *ssa.Store:
+					if fa, ok := v.Addr.(*ssa.FieldAddr); ok && fieldOf(fa) == f {
+						direct = true
+					}
+					if ia, ok := v.Addr.(*ssa.IndexAddr); ok {
+						if fa, ok := ia.X.(*ssa.FieldAddr); ok && fieldOf(fa) == f {
+							direct = true
+						}
+					}
+				case ssa.CallInstruction:
+					if bi, ok := v.Common().Value.(*ssa.Builtin); ok && bi.Name() == "copy" {
+						if s, ok := v.Common().Args[0].(*ssa.Slice); ok {
+							if fa, ok := s.X.(*ssa.FieldAddr); ok && fieldOf(fa) == f {
+								direct = true
+							}
+						}
+					}
+				}
+			}
+		}
+		if direct {
+			writers[shortFn(fn)] = true
+		}
+	}
+	ok := true
+	for w := range writers {
+		if !allow[w] {
+			ok = false
+		}
+	}
+	r.Check(rule, "", "writers-of-"+f.Name(), rd.advance.Pos(), ok && len(writers) > 0, "Conn."+f.Name()+" is written by {"+joinNames(writers)+"}, allowed {"+joinNames(allow)+"}")
+}
+
+// parserRules checks, on every accepted path of advanceFrame: extended-length
+// decoding, mask-key threading, the FIN flag and the RSV1 flag.
+func (rd *reader) parserRules(ruleLen, ruleMask, ruleFin, ruleDec string) {
+	c, r := rd.c, rd.c.R
 	full := core.Opts{Unroll: 0, RecordLoads: true, Inline: rd.inl()}
 
 	// ---- len-classes, mask-thread(a), final-flag, inflate-iff-rsv1(a) on accepted paths of advanceFrame
@@ -96,7 +200,7 @@ func c03(c *Ctx) {
 	okF, whyF := true, "readFinal := FIN bit exactly on data/continuation paths"
 	okD, whyD := true, "readDecompress := RSV1 bit on every accepted path"
 	nAcc := 0
-	c.explore("C03.len-classes", rd.advance, full, func(p *core.Path) {
+	c.explore(ruleLen, rd.advance, full, func(p *core.Path) {
 		if !acceptedPath(p) {
 			return
 		}
@@ -279,106 +383,9 @@ func c03(c *Ctx) {
 	if nAcc < 10 {
 		okL, whyL = false, fmt.Sprintf("only %d accepted paths recognised", nAcc)
 	}
-	r.Check("C03.len-classes", shortFn(rd.advance), "extended-length-decoding", rd.advance.Pos(), okL, whyL)
-	r.Check("C03.mask-thread", shortFn(rd.advance), "key-copy-and-position-reset", rd.advance.Pos(), okM, whyM)
-	r.Check("C03.final-flag", shortFn(rd.advance), "readFinal-is-FIN-of-data-frames", rd.advance.Pos(), okF, whyF)
-	r.Check("C03.inflate-iff-rsv1", shortFn(rd.advance), "readDecompress-is-RSV1", rd.advance.Pos(), okD, whyD)
+	r.Check(ruleLen, shortFn(rd.advance), "extended-length-decoding", rd.advance.Pos(), okL, whyL)
+	r.Check(ruleMask, shortFn(rd.advance), "key-copy-and-position-reset", rd.advance.Pos(), okM, whyM)
+	r.Check(ruleFin, shortFn(rd.advance), "readFinal-is-FIN-of-data-frames", rd.advance.Pos(), okF, whyF)
+	r.Check(ruleDec, shortFn(rd.advance), "readDecompress-is-RSV1", rd.advance.Pos(), okD, whyD)
 
-	rd.readUnmask("C03.mask-thread")
-	rd.owners("C03.mask-thread", rd.readMaskPos, "(*Conn).advanceFrame", "(*messageReader).Read")
-	rd.owners("C03.mask-thread", rd.readMaskKey, "(*Conn).advanceFrame")
-	rd.owners("C03.remaining", rd.readRemaining, "(*Conn).setReadRemaining")
-	rd.owners("C03.final-flag", rd.readFinal, "(*Conn).advanceFrame", "newConn")
-	rd.remainingRule("C03.remaining")
-	rd.eofProvenance("C03.eom")
-	rd.skipLoop("C03.skip-loop")
-	rd.inflateWrap("C03.inflate-iff-rsv1")
-	if c.poolTypestate("C03.inflater-exclusive", "(*flateReadWrapper).Close", "(*flateReadWrapper).Read") < 1 {
-		r.Fail("C03.inflater-exclusive", "(*flateReadWrapper).Close", "pool-put-site", c.fn("(*flateReadWrapper).Close").Pos(), "no Put of the inflater found")
-	}
-	// newConn: readFinal = true
-	{
-		ok := false
-		for _, s := range c.P.FieldStoreSites(rd.readFinal) {
-			if shortFn(s.Parent()) == "newConn" {
-				if k, isC := s.Val.(*ssa.Const); isC && k.Value != nil && constant.BoolVal(k.Value) {
-					ok = true
-				}
-			}
-		}
-		r.Check("C03.final-flag", "newConn", "initial-readFinal-true", c.fn("newConn").Pos(), ok, "a new connection must start outside a message (readFinal = true)")
-	}
-}
-
-// b0Compatible: is header byte 0 = b0 compatible with the path's byte-0 literals in some state?
-func (rd *reader) b0Compatible(p *core.Path, P *core.Term, b0 int) bool {
-	isLeaf := rd.isHdrLeaf(P)
-	for st := 0; st < 8; st++ {
-		s := &hdrState{b0: b0, readFinal: st&1 != 0, isServer: st&2 != 0, hasDecomp: st&4 != 0}
-		lf := rd.hdrLeaf(P, s)
-		good := true
-		for _, l := range p.Lits {
-			if !core.Evaluable(l.T, isLeaf) || mentionsB1(l.T, P) {
-				continue
-			}
-			v, ok := p.X.Eval(l.T, lf)
-			if ok && constant.BoolVal(v) != l.Pos {
-				good = false
-				break
-			}
-		}
-		if good {
-			return true
-		}
-	}
-	return false
-}
-
-// owners: field f is stored (or copied into) only inside the named functions.
-func (rd *reader) owners(rule string, f *types.Var, allowed ...string) {
-	c, r := rd.c, rd.c.R
-	allow := map[string]bool{}
-	for _, a := range allowed {
-		allow[a] = true
-	}
-	writers := map[string]bool{}
-	for _, fn := range c.P.FuncList {
-		if fn.Synthetic != "" {
-			continue
-		}
-		direct := false
-		for _, b := range fn.Blocks {
-			for _, in := range b.Instrs {
-				switch v := in.(type) {
-				case *ssa.Store:
-					if fa, ok := v.Addr.(*ssa.FieldAddr); ok && fieldOf(fa) == f {
-						direct = true
-					}
-					if ia, ok := v.Addr.(*ssa.IndexAddr); ok {
-						if fa, ok := ia.X.(*ssa.FieldAddr); ok && fieldOf(fa) == f {
-							direct = true
-						}
-					}
-				case ssa.CallInstruction:
-					if bi, ok := v.Common().Value.(*ssa.Builtin); ok && bi.Name() == "copy" {
-						if s, ok := v.Common().Args[0].(*ssa.Slice); ok {
-							if fa, ok := s.X.(*ssa.FieldAddr); ok && fieldOf(fa) == f {
-								direct = true
-							}
-						}
-					}
-				}
-			}
-		}
-		if direct {
-			writers[shortFn(fn)] = true
-		}
-	}
-	ok := true
-	for w := range writers {
-		if !allow[w] {
-			ok = false
-		}
-	}
-	r.Check(rule, "", "writers-of-"+f.Name(), rd.advance.Pos(), ok && len(writers) > 0, "Conn."+f.Name()+" is written by {"+joinNames(writers)+"}, allowed {"+joinNames(allow)+"}")
 }
